@@ -43,6 +43,14 @@ func c05Names(n, variant int) []string {
 	return pool[variant%len(pool)][:n]
 }
 
+func c05Range(lo, hi int) []int {
+	var out []int
+	for i := lo; i <= hi; i++ {
+		out = append(out, i)
+	}
+	return out
+}
+
 func c05Gen(g *core.Gen) {
 	// the staged exported API behind Create: every operation sequence on one Encoder object while the inputs change
 	depth, diskDepth := 8, 5
@@ -139,7 +147,7 @@ func c05Gen(g *core.Gen) {
 	}
 	// every name length 1..40 (flat, and with the same length spent on nested directories): padding and packet
 	// framing depend on the length modulo 4
-	for l := 1; l <= 40; l++ {
+	for _, l := range append(c05Range(1, 72), 127, 128, 129, 255, 256, 257, 300) {
 		flat := strings.Repeat("n", l)
 		g.Emit(&c05Case{Sizes: []int{9, 5}, Names: []string{flat, "z"}, Slice: 4, Blocks: 2, G: 1})
 		if l >= 3 {
